@@ -31,7 +31,7 @@ HasDevice(rp) == rp \in {"cx", "cj", "cp"}
 VARIABLES
   fcfg,    \* [router : {"P","L"}, pkce : BOOLEAN]   (pkce: the confidential RPs use PKCE too)
   jar,     \* <<browser, rp>> |-> attempt whose state (and verifier) cookie the browser holds, or "none"
-  atts,    \* attempt |-> [b, rp, req, user, code, redeemed]
+  atts,    \* attempt |-> [b, rp, mode, req, user, code, redeemed]   mode: the response_mode the relying party asked for ("query" | "form_post")
   sess,    \* <<browser, rp>> |-> [at, rt, sub, idt]   what the application holds for this browser ("none" = nothing)
   dead,    \* access tokens dead at the provider (revoked, expired, session ended)
   deadRT,  \* refresh tokens dead at the provider (rotated, revoked, session ended)
@@ -57,7 +57,7 @@ Apply(e) ==
   CASE e.op = "Start" ->
          /\ jar'  = IF o.class = "redirect" THEN [jar EXCEPT ![<<a.b, a.rp>>] = o.att] ELSE jar
          /\ atts' = IF o.class = "redirect"
-                    THEN (o.att :> [b |-> a.b, rp |-> a.rp, req |-> FALSE, user |-> "none", code |-> FALSE, redeemed |-> FALSE]) @@ atts
+                    THEN (o.att :> [b |-> a.b, rp |-> a.rp, mode |-> a.mode, req |-> FALSE, user |-> "none", code |-> FALSE, redeemed |-> FALSE]) @@ atts
                     ELSE atts
          /\ UNCHANGED <<sess, dead, deadRT, owner, devs>>
     [] e.op = "Authorize" ->
@@ -99,6 +99,10 @@ Apply(e) ==
          /\ dead'   = IF o.class = "redirect" THEN dead \cup mine ELSE dead
          /\ deadRT' = IF o.class = "redirect" THEN deadRT \cup mine ELSE deadRT
          /\ UNCHANGED <<jar, atts, sess, owner, devs>>
+    [] e.op = "TokenExchange" ->
+         LET s == sess[<<a.b, a.rp>>] IN
+         /\ owner' = IF o.class = "tokens" THEN AddOwner(owner, o.at, o.sub, a.rp) ELSE owner
+         /\ UNCHANGED <<jar, atts, sess, dead, deadRT, devs>>
     [] e.op = "DeviceStart" ->
          /\ devs' = IF o.class = "device" THEN (o.dc :> [rp |-> a.rp, status |-> "pending", sub |-> "none"]) @@ devs ELSE devs
          /\ UNCHANGED <<jar, atts, sess, dead, deadRT, owner>>
@@ -125,7 +129,9 @@ RulesAuthorize(a, o) ==
 
 RulesOPCallback(a, o) ==
   LET t == atts[a.att] IN
-  { <<"C17.flow.code",      (Has(atts, a.att) /\ t.req /\ t.user # "none") => (o.class = "code" /\ o.stateEcho /\ o.target)>>,
+  { \* the code arrives by the channel the relying party asked for: in the query of a redirect, or in an auto-submitting form (form_post)
+    <<"C11.flow.channel",   (o.class = "code" /\ Has(atts, a.att)) => o.channel = IF t.mode = "form_post" THEN "form" ELSE "query">>,
+    <<"C17.flow.code",      (Has(atts, a.att) /\ t.req /\ t.user # "none") => (o.class = "code" /\ o.stateEcho /\ o.target)>>,
     <<"C17.flow.codeLogin", (o.class = "code") => (Has(atts, a.att) /\ t.req /\ t.user # "none")>> }
 
 RulesRPCallback(a, o) ==
@@ -138,7 +144,9 @@ RulesRPCallback(a, o) ==
     <<"C17.flow.unauthorized", (~bound) => (o.class = "unauthorized" /\ o.tokenRequests = 0)>>,
     <<"C17.flow.tokens",       (o.class = "tokens") => (known /\ t.code /\ ~t.redeemed /\ o.sub = t.user /\ o.atSub = t.user /\ o.client = rp /\ o.idt)>>,
     \* every token the provider issues in the code flow passes the relying party's own verification (discovery, remote key set, at_hash ...)
-    <<"C17.flow.complete",     fitting => o.class = "tokens">> }
+    <<"C17.flow.complete",     fitting => o.class = "tokens">>,
+    \* ... by whichever channel the response travelled (C11 seen end to end: state and code arrive intact at the relying party)
+    <<"C11.flow.delivered",    fitting => (o.class = "tokens" /\ o.stateToApp)>> }
 
 Live(p) == sess[p].at # "none" /\ sess[p].at \notin dead
 LiveRT(p) == sess[p].rt # "none" /\ sess[p].rt \notin deadRT
@@ -170,6 +178,13 @@ RulesEndSession(a, o) ==
   { <<"C08.flow.logout.served", sess[p].idt => (o.class = "redirect" /\ o.state)>>,
     <<"C08.flow.logout.target", (o.class = "redirect" /\ sess[p].idt) => o.target = IF HasPostLogout(a.rp) THEN "registered" ELSE "default">> }
 
+\* tokenexchange.ExchangeToken with the session's access token as subject token; only cw is registered for the grant
+HasExchange(rp) == rp = "cw"
+RulesTokenExchange(a, o) ==
+  LET p == <<a.b, a.rp>> IN
+  { <<"C15.flow.exchange.live",   (o.class = "tokens") => (Live(p) /\ HasExchange(a.rp) /\ o.sub = sess[p].sub /\ o.issuedType = "access")>>,
+    <<"C15.flow.exchange.served", (Live(p) /\ HasExchange(a.rp)) => o.class = "tokens">> }
+
 RulesDeviceStart(a, o) ==
   { <<"C16.flow.device.served", HasDevice(a.rp) => (o.class = "device" /\ o.uriOnIssuer)>>,
     <<"C16.flow.device.grant",  (o.class = "device") => HasDevice(a.rp)>> }
@@ -193,6 +208,7 @@ Rules(e) ==
     [] e.op = "Refresh"     -> RulesRefresh(e.args, e.out)
     [] e.op = "Revoke"      -> RulesRevoke(e.args, e.out)
     [] e.op = "EndSession"  -> RulesEndSession(e.args, e.out)
+    [] e.op = "TokenExchange" -> RulesTokenExchange(e.args, e.out)
     [] e.op = "DeviceStart" -> RulesDeviceStart(e.args, e.out)
     [] e.op = "DevicePoll"  -> RulesDevicePoll(e.args, e.out)
     [] OTHER -> {}
